@@ -158,7 +158,24 @@ macro_rules! claim {
     }};
 }
 
-/// A reachability witness: `kani::cover!` under Kani, nothing natively.
+/// An observation about what the code under test answered (precision, which branch it took):
+/// a `kani::cover!` whose outcome is reported in the evidence but never decides the verdict - a
+/// more conservative darklua legitimately makes some of them unsatisfiable.
+#[macro_export]
+macro_rules! observe {
+    ($condition:expr, $message:literal) => {{
+        #[cfg(kani)]
+        {
+            kani::cover!($condition, $message);
+        }
+        #[cfg(not(kani))]
+        {
+            let _ = &$condition;
+        }
+    }};
+}
+
+/// A reachability witness (vacuity guard): must be satisfiable, else the run is inconclusive.
 #[macro_export]
 macro_rules! witness {
     ($condition:expr, $message:literal) => {{
@@ -190,6 +207,12 @@ macro_rules! proof {
 #[macro_export]
 macro_rules! note {
     ($source:expr, $($arg:tt)*) => {{
+        // the note sits right after the call of the code under test: under Kani it doubles as the
+        // required reachability witness of the claims that follow
+        #[cfg(kani)]
+        {
+            kani::cover!(true, "reached: the code under test returned and the claims are evaluated");
+        }
         #[cfg(not(kani))]
         {
             $crate::source::Source::note($source, format!($($arg)*));
